@@ -75,8 +75,8 @@ ChildSpec rand_child(G &g, bool may_read = true) {
   for (int i = 0; i < n; i++) {
     switch (g.r.below(may_read ? 7 : 5)) {
       case 0: c.script.push_back(Step{ Step::SLEEP, 0, g.pick({ 0, 1, 3, 10, 50, 200 }), 0 }); break;
-      case 1: case 2: c.script.push_back(Step{ Step::WRITE, 1, g.pick({ 0, 1, 7, 100, 5000, 70000 }), g.pick({ 0, 1, 16, 4096 }) }); break;
-      case 3: c.script.push_back(Step{ Step::WRITE, 2, g.pick({ 0, 1, 7, 100, 5000 }), g.pick({ 0, 3, 4096 }) }); break;
+      case 1: case 2: { int64_t n = g.pick({ 0, 1, 7, 100, 5000, 70000 }); int64_t ch = g.pick({ 0, 1, 16, 4096 }); while (ch > 0 && n / ch > 1500) ch *= 8; c.script.push_back(Step{ Step::WRITE, 1, n, ch }); break; }
+      case 3: { int64_t n = g.pick({ 0, 1, 7, 100, 5000 }); int64_t ch = g.pick({ 0, 3, 4096 }); while (ch > 0 && n / ch > 1500) ch *= 8; c.script.push_back(Step{ Step::WRITE, 2, n, ch }); break; }
       case 4: c.script.push_back(Step{ Step::CLOSE, (int) g.pick({ 0, 1, 2 }), 0, 0 }); break;
       case 5: c.script.push_back(Step{ Step::READ, 0, g.pick({ 1, 10, 1000 }), 0 }); break;
       case 6: c.script.push_back(Step{ g.chance(50) ? Step::READ_EOF : Step::ECHO, 0, 0, g.pick({ 0, 5, 4096 }) }); break;
